@@ -656,3 +656,37 @@ Definition run_line6 (line : string) : string :=
       else run_line5 line
   | _ => "badline"
   end.
+
+(** value3: a value (the merge of the second group of layers) rendered against a foreign root
+    (the merge of the first group): Value::rendered(&root) *)
+Definition run_value3 (ts : list string) : string :=
+  match ts with
+  | n :: ts' =>
+      match nat_of_string n with
+      | Some n =>
+          match p_yamls n ts' with
+          | Some (ys, n2 :: ts2) =>
+              match nat_of_string n2 with
+              | Some n2 =>
+                  match p_yamls n2 ts2 with
+                  | Some (ys2, []) =>
+                      canon_res (canon false)
+                        (root <- merge_layers ys ;; m <- merge_layers ys2 ;; rendered run_fuel root (VMap m))
+                  | _ => "badcase"
+                  end
+              | None => "badcase"
+              end
+          | _ => "badcase"
+          end
+      | None => "badcase"
+      end
+  | _ => "badcase"
+  end.
+
+Definition run_line7 (line : string) : string :=
+  match words line with
+  | id :: mode :: ts =>
+      if String.eqb mode "value3" then (id ++ tab ++ run_value3 ts)%string
+      else run_line6 line
+  | _ => "badline"
+  end.
